@@ -37,7 +37,15 @@ m = {
     },
     "engines": [
         {"name": "vf", "path": "/verif/vf", "serves_properties": [c["property_id"] for c in checks],
-         "kind_free_text": "Hypothesis-driven property-based testing framework: sharded runner, programs-as-data generators, reference models, replay files, known-findings matcher"},
+         "kind_free_text": "Hypothesis-driven property-based testing framework: sharded runner (vf/runner.py), programs-as-data generators, reference models, replay files, known-findings matcher, pure-Python import hook (vf/purehook.py)"},
+        {"name": "E-SCHED", "path": "/verif/vf/sched.py", "serves_properties": ["C25", "C28", "C52"],
+         "kind_free_text": "deterministic scheduler for real threads: the schedule (pre-emption list + picks) is generated data; pre-emption at traced source lines and at every shim Lock/RLock/Condition operation; virtual clock"},
+        {"name": "E-REC", "path": "/verif/vf/fakedb.py", "serves_properties": ["C04", "C05", "C12", "C16", "C23", "C24", "C25", "C26", "C27"],
+         "kind_free_text": "recording + fault-injecting DBAPI with connection ledger and scripted fault plans; recording engines for real dialect+driver pairs (no server needed)"},
+        {"name": "E-CANCEL", "path": "/verif/checks/c29.py", "serves_properties": ["C29"],
+         "kind_free_text": "awaitable wrapper counting task suspensions and cancelling the task exactly at its k-th await (fault enumeration over await points)"},
+        {"name": "E-DIFF", "path": "/verif/checks/_c55_interp.py", "serves_properties": ["C55"],
+         "kind_free_text": "trace differential between the pure-Python working tree and a persistent child interpreter running the prebuilt compiled extensions"},
     ],
     "checks": checks,
     "notes": "Single entry point ./check <ID> [--tier quick|thorough] [--replay FILE]; VERIF_SEED seeds every Hypothesis run; exit 2 = harness error (never a violation). "
